@@ -97,7 +97,12 @@ def parseScript (body : List String) : Script := Id.run do
             let em := if send then em else { em with dst := 0 }
             let isH := who.startsWith "H:"
             let he : HEmit := match (if isH then kvNat rest "task" else none) with
-              | some x => .task x em
+              | some x =>
+                let fin : TaskFin := if rest.contains "fin=panic" then .panic
+                  else if rest.contains "fin=hang" then .hang else .send em
+                let join : JoinMode := if rest.contains "join=must" then .must
+                  else if rest.contains "join=try" then .try_ else .detached
+                .task x ⟨fin, join⟩
               | none => .now em
             sc := { sc with emits := sc.emits ++ [⟨who, hook, key, he⟩] }
       | _, _, _ => pure ()
@@ -118,7 +123,7 @@ def elemOf (sc : Script) (idx : Nat) (d : ElemDecl) : Elem :=
     (sc.emits.filter fun l => l.who == d.name && l.hook == hook && l.key == key).filterMap fun l =>
       match l.emit with
       | .now e => some (.send e)
-      | .task _ e => some (.send e)
+      | .task _ _ => none
       | .shutdown _ => none
   let dns (hook : String) (n : Nat) : List Action :=
     (sc.downs.filter fun l => l.who == d.name && l.hook == hook && l.n == n).map fun l => .shutdown l.restartIn
@@ -228,8 +233,8 @@ def runCase (c : Case) : String := Id.run do
       res := line
   impl := impl.reverse
   implDowns := implDowns.reverse
-  if !(res.startsWith "res ok") then
-    -- no scripted behaviour panics: a failed run is a counterexample by itself
+  if !(res.startsWith "res ok") && !(res.startsWith "res err=join:") then
+    -- no scripted hook or handler panics: a run that fails otherwise than by join errors is a counterexample by itself
     return s!"fail {id} op={impl.length} kind=reject clause=run-failed impl=[{res}]"
   -- A: bracket grammar
   let acts := stacks.map fun p => p.2.elems.map (·.spec.act)
@@ -266,6 +271,14 @@ def runCase (c : Case) : String := Id.run do
   | some k =>
     return s!"fail {id} op={k} kind=diverge model=[{showOpt sc stacks s.log[k]?}] impl=[{showOpt sc stacks impl[k]?}] prev=[{showOpt sc stacks (if k = 0 then none else impl[k-1]?)}]"
   | none => pure ()
+  -- what `run()` returned: Ok, or the join errors of the tear-down in order
+  let errName : JoinErr → String
+    | .notFinished => "NotFinished" | .paniced => "Paniced" | .tokio => "Tokio"
+  let expectRes := if s.errors.isEmpty then "ok"
+    else "err=join:" ++ ",".intercalate (s.errors.map fun e => (((sc.mods[e.1]?).map (·.name)).getD "?") ++ "/" ++ errName e.2)
+  let implRes := ((words res)[1]?).getD ""
+  if implRes != expectRes then
+    return s!"fail {id} op={impl.length} kind=diverge clause=run-result model=[{expectRes}] impl=[{implRes}]"
   if s.downs != implDowns then
     return s!"fail {id} op=0 kind=diverge clause=shutdown-requests model={s.downs.length} impl={implDowns.length}"
   -- evidence
@@ -294,7 +307,7 @@ def runCase (c : Case) : String := Id.run do
   let downStacked := (lbrs.filter fun b => !b.2.2.2.isEmpty && (match acts[b.1]? with | some a => !a.isEmpty | none => false)).length
   let _ := modified
   let nt := deepConsumed > 0 && handled > 0 && maxStack ≥ 2 && ties > 0
-  return s!"ok {id} nt={if nt then 1 else 0} entries={impl.length} events={brs.length} msgs={msgBr.length} consumed={consumed} deepconsumed={deepConsumed} handled={handled} ties={ties} wakeups={wakeups} gatehops={exits} maxstack={maxStack} emptystacks={emptyStacks} mods={acts.length} shutdowns={downEvents} shutdownsstacked={downStacked} restarts={restarts} ignoredmsgs={ignored}"
+  return s!"ok {id} nt={if nt then 1 else 0} entries={impl.length} events={brs.length} msgs={msgBr.length} consumed={consumed} deepconsumed={deepConsumed} handled={handled} ties={ties} wakeups={wakeups} gatehops={exits} maxstack={maxStack} emptystacks={emptyStacks} mods={acts.length} shutdowns={downEvents} shutdownsstacked={downStacked} restarts={restarts} ignoredmsgs={ignored} joinerrors={s.errors.length}"
 
 def main (stdin : IO.FS.Stream) : IO Unit := do
   let cases ← readCases stdin
